@@ -30,7 +30,11 @@ EXPLANATION = ('PARTIAL. Proved (unbounded, all operands): the 15 integer runtim
                'WasmTrapException) for divisor 0. Refuted: iN.div_s MIN/-1 returns MIN instead of trapping; under the '
                'target-independent IR reading shift counts >= N are undefined behaviour (wasm2ppci does not mask). '
                'NOT modelled/proved: control flow, calls, locals/globals, memory, tables, floats, the native target, '
-               'the text/binary front end; these are exercised by tests only.')
+               'the text/binary front end; these are exercised by tests only. Linear memory and globals '
+               '(memory.size/grow with min/max limits, every load/store width and signedness with static offsets at '
+               'the last valid address and one past it, data segments, mutable/immutable globals, grow-store-load '
+               'sequences, final memory image) are VALIDATED ONLY by a search-only differential stage '
+               '(tools/props/c22_mem.py) against an independent reference written from the core spec; no theorem.')
 TRUSTED = ['tools/py2coq.py (translator; cross-checked per run against the implementation)',
            'extraction of the IrPy static methods from the text emitted by irpy_runtime_code (dedent of 5 functions)',
            'export of the opcode -> IR table from the compiled IR (symbolic walk in tools/props/c22.py; '
@@ -355,6 +359,17 @@ def search(ctx):
     ensure_repo_on_path()
     search_integer(ctx, True, 'python')
     float_tests(ctx)
+    memory_tests(ctx, False)
+
+
+def memory_tests(ctx, quick):
+    """linear memory + globals on the python target vs an independent reference: VALIDATION ONLY (no proof)"""
+    from props import c22_mem
+    try:
+        c22_mem.memory_stage(ctx, quick)
+    except Exception as ex:   # noqa: BLE001
+        ctx.log('memory/globals stage crashed: %r' % (ex,))
+        ctx.failed_stages.append(('memory_search', repr(ex)))
 
 
 # ---------------------------------------------------------------- correspondence
@@ -495,6 +510,7 @@ def run(ctx):
                                'actual': got[1] if got[0] == 'ok' else '%s (%s)' % got,
                                'how_to_replay': replay_cmd(op, args, tys, res)})
     float_tests(ctx)
+    memory_tests(ctx, ctx.quick())
     if not ctx.quick():
         try:
             search_integer(ctx, False, 'native')
@@ -513,7 +529,11 @@ MANIFEST = {
             'returns MIN instead of trapping. Control flow, calls, memory, tables, globals, floats and the native target are NOT '
             'proved: integer opcodes are executed end to end through instantiate(target=python) (native in the thorough tier) '
             'against an independent oracle, and float trunc/nearest/min/max/ceil/floor run on a fixed boundary pool as TESTS; '
-            'their failures (NaN -> ValueError, out-of-range trunc not trapping, lost -0.0/NaN) are known findings.',
+            'their failures (NaN -> ValueError, out-of-range trunc not trapping, lost -0.0/NaN) are known findings. Linear '
+            'memory and globals on the python target (memory.size/grow limits, all load/store widths at the bounds, data '
+            'segments, global get/set, multi-step sequences, final memory image) are checked by a search-only differential '
+            'stage against an independent reference: validation, NOT proof; out-of-bounds accesses abort with AssertionError '
+            '(accepted as trap); addresses >= 2^31 are not trapped (known finding).',
     'note': 'trusted: Coq kernel; tools/py2coq.py; the IR table exporter and the hand model Model/WasmIr.v of what ir2py emits for '
             'Binop/Cast/CJump/Const/FunctionCall (both cross-checked per run by executing the real python target on ~2600 '
             'boundary cases); reading of the WebAssembly spec in Spec/WasmNumSpec.v (cross-checked against an independent '
